@@ -127,7 +127,7 @@ def run(specs, workdir, tier):
         results.append(res)
     # concrete playback for real failures
     for res, s in zip(results, specs):
-        if res['status'] == 'failed' and not s.get('should_fail'):
+        if res['status'] == 'failed' and not s.get('should_fail') and not s.get('known_failing'):
             res['concrete'] = playback(s, KDIR)
     return results
 
